@@ -152,6 +152,16 @@ pub fn build(
     let mut defaultable = false;
     let doc = definition.attributes.doc(resolvee_path)?;
     for attribute in &definition.attributes {
+        // an enum has the size and alignment of its base type: attributes that would say
+        // otherwise cannot be honoured and must not be skipped silently
+        let (grammar::Attribute::Ident(name)
+        | grammar::Attribute::Function(name, _)
+        | grammar::Attribute::Assign(name, _)) = attribute;
+        if matches!(name.as_str(), "size" | "align" | "packed") {
+            anyhow::bail!(
+                "enum `{resolvee_path}` cannot have a `{name}` attribute; it is laid out like its base type"
+            );
+        }
         match attribute {
             grammar::Attribute::Ident(ident) => match ident.as_str() {
                 "copyable" => {
